@@ -176,25 +176,75 @@ func c11R2(c *Ctx, r *Report) {
 	} else {
 		r.fn("tsigHMACProvider.Verify")
 		var problems []string
-		pts, und := successPoints(c, fn, 0, nil)
+		isGenIn := func(v ssa.Value) bool {
+			call, ok := v.(*ssa.Call)
+			return ok && calleeNameSSA(&call.Call) == "(tsigHMACProvider).Generate" && call.Call.Args[1] == fn.Params[1] && call.Call.Args[2] == fn.Params[2]
+		}
+		// the comparison may live in a helper Verify hands the recomputed MAC and the TSIG to: then the helper is
+		// examined, with its parameters standing for what Verify passes
+		target, genPred, tsig := fn, func(v ssa.Value) bool { return isGenIn(v) }, ssa.Value(fn.Params[2])
+		verdicts := []string{}
+		if len(callsIn(fn, "hmac.Equal")) == 0 {
+			for _, ci := range callsIn(fn) {
+				_ = ci
+			}
+			allInstrs(fn, func(in ssa.Instruction) {
+				call, ok := in.(*ssa.Call)
+				if !ok {
+					return
+				}
+				g := call.Call.StaticCallee()
+				if g == nil || g.Pkg != fn.Pkg || len(g.Blocks) == 0 || len(callsIn(g, "hmac.Equal")) == 0 {
+					return
+				}
+				var pGen, pT ssa.Value
+				for i, a := range call.Call.Args {
+					if i >= len(g.Params) {
+						continue
+					}
+					if anyIn(sliceOf(a), isGenIn) {
+						pGen = g.Params[i]
+					}
+					if a == ssa.Value(fn.Params[2]) {
+						pT = g.Params[i]
+					}
+				}
+				if pGen == nil || pT == nil {
+					problems = append(problems, fmt.Sprintf("%s: %s is not handed Generate(msg, t) and t", c.pos(call.Pos()), fnDisplay(g)))
+					return
+				}
+				target, tsig = g, pT
+				genPred = func(v ssa.Value) bool { return v == pGen }
+				verdicts = append(verdicts, calleeNameSSA(&call.Call))
+				r.fn(fnDisplay(g))
+			})
+		}
+		// Verify itself: success only by nil (examined below when it holds the comparison) or by the helper's verdict
+		pts, und := successPoints(c, fn, 0, verdicts)
 		problems = append(problems, und...)
-		eqs := callsIn(fn, "hmac.Equal")
+		if target != fn {
+			for _, p := range pts {
+				if p.Kind == "nil" {
+					problems = append(problems, fmt.Sprintf("success at %s without the comparison helper having been asked", c.pos(p.Pos)))
+				}
+			}
+			var und2 []string
+			pts, und2 = successPoints(c, target, 0, nil)
+			problems = append(problems, und2...)
+		}
+		eqs := callsIn(target, "hmac.Equal")
 		if len(eqs) != 1 {
 			problems = append(problems, fmt.Sprintf("%d hmac.Equal calls (a constant-time comparison is required)", len(eqs)))
 		} else {
 			eq := eqs[0].(*ssa.Call)
 			for _, p := range pts {
-				if miss := guardsMissing(fn, p.Block, []Guard{{Name: "hmac.Equal", Op: "call", A: isValue(eq), Holds: true}}); len(miss) > 0 {
+				if miss := guardsMissing(target, p.Block, []Guard{{Name: "hmac.Equal", Op: "call", A: isValue(eq), Holds: true}}); len(miss) > 0 {
 					problems = append(problems, fmt.Sprintf("success at %s without hmac.Equal having returned true", c.pos(p.Pos)))
 				}
 			}
 			s0, s1 := sliceOf(eq.Call.Args[0]), sliceOf(eq.Call.Args[1])
-			gen := func(v ssa.Value) bool {
-				call, ok := v.(*ssa.Call)
-				return ok && calleeNameSSA(&call.Call) == "(tsigHMACProvider).Generate" && call.Call.Args[1] == fn.Params[1] && call.Call.Args[2] == fn.Params[2]
-			}
-			mac := fieldPathOf(isValue(fn.Params[2]), "MAC")
-			if !((anyIn(s0, gen) && anyIn(s1, mac)) || (anyIn(s1, gen) && anyIn(s0, mac))) {
+			mac := fieldPathOf(isValue(tsig), "MAC")
+			if !((anyIn(s0, genPred) && anyIn(s1, mac)) || (anyIn(s1, genPred) && anyIn(s0, mac))) {
 				problems = append(problems, "hmac.Equal does not compare Generate(msg, t) with the decoded t.MAC")
 			}
 			for i, a := range eq.Call.Args {
